@@ -27,6 +27,8 @@ def peel(n):
                                              "as_mut", "borrow", "as_slice", "cloned", "copied", "iter",
                                              "into_iter") and not n.get("args"):
             n = n["recv"]
+        elif k == "mcall" and n.get("m") in ("map_err", "context", "with_context"):
+            n = n["recv"]         # only the error is rewritten
         elif k == "block" and not n.get("stmts") and n.get("expr") is not None:
             n = n["expr"]
         elif k == "cast":
@@ -59,7 +61,83 @@ def norm_text(t):
         t = _VAL_PLACE.sub(r"\1", t)
         t = _strip_wrapped(t, "val(", "")
     t = _SOME_PLACE.sub(r"P(\1)", t)
-    return _strip_wrapped(t, "SOME(", "P(")
+    t = _strip_wrapped(t, "SOME(", "P(")
+    return _flatten_phi(t)
+
+
+def _flatten_phi(t):
+    """phi(a|phi(b|c)) is phi(a|b|c): the set of values a variable can have after the branches, without the nesting
+    the branch structure happened to have"""
+    if "phi(" not in t:
+        return t
+    out = ""
+    i = 0
+    while i < len(t):
+        j = t.find("phi(", i)
+        if j < 0 or (j > 0 and (t[j - 1].isalnum() or t[j - 1] == "_")):
+            if j < 0:
+                out += t[i:]
+                break
+            out += t[i:j + 4]
+            i = j + 4
+            continue
+        # matching paren
+        d, k, q = 0, j + 3, None
+        end = None
+        while k < len(t):
+            ch = t[k]
+            if q:
+                if ch == q:
+                    q = None
+            elif ch == "'":
+                q = ch
+            elif ch == "(":
+                d += 1
+            elif ch == ")":
+                d -= 1
+                if d == 0:
+                    end = k
+                    break
+            k += 1
+        if end is None:
+            out += t[i:]
+            break
+        inner = _flatten_phi(t[j + 4:end])
+        alts = []
+        for alt in _split_bar(inner):
+            alt = alt.strip()
+            m_ = re.match(r"^phi\((.*)\)$", alt, re.S)
+            if m_ and _balanced(m_.group(1)):
+                alts.extend(x.strip() for x in _split_bar(m_.group(1)))
+            else:
+                alts.append(alt)
+        alts = sorted(set(alts))
+        out += t[i:j] + ("phi(%s)" % "|".join(alts) if len(alts) > 1 else alts[0])
+        i = end + 1
+    return out
+
+
+def _split_bar(t):
+    out, cur, d, q = [], "", 0, None
+    for ch in t:
+        if q:
+            cur += ch
+            if ch == q:
+                q = None
+            continue
+        if ch == "'":
+            q = ch
+        elif ch in "([{":
+            d += 1
+        elif ch in ")]}":
+            d -= 1
+        if ch == "|" and d == 0:
+            out.append(cur)
+            cur = ""
+        else:
+            cur += ch
+    out.append(cur)
+    return out
 
 
 _FIELD_END = re.compile(r"^(?:self|p\d+|val\().*\.[A-Za-z_]\w*$", re.S)
@@ -166,12 +244,24 @@ def cat_append(old_t, part):
 class _Stores(list):
     def append(self, item):
         pc, rep_ = item
-        super().append((pc, norm_text(rep_) if isinstance(rep_, str) else rep_))
+        super().append((pc, norm_loopvars(norm_text(rep_)) if isinstance(rep_, str) else rep_))
+
+
+_LOOPVAR = re.compile(r"~[slmev]_[0-9a-f]{7}|~[A-Za-z_]\w*")
+
+
+def norm_loopvars(t):
+    """a variable changed inside a loop is written ~<name>; inside one atom only its identity matters"""
+    seen = {}
+
+    def rep_(m):
+        return seen.setdefault(m.group(0), "~%d" % len(seen))
+    return _LOOPVAR.sub(rep_, t)
 
 
 class AcceptExtract(guards.Extract):
     def atom(self, s):
-        return ("atom", norm_text(s))
+        return ("atom", norm_loopvars(norm_text(s)))
 
     def __init__(self, F, body):
         self.F = F
@@ -271,14 +361,45 @@ class AcceptExtract(guards.Extract):
             a = env.get(x["id"])
             if a and a[0] in ("text", "place"):
                 return a[1]
+            if a and a[0] == "value" and isinstance(a[1], dict):
+                return self.value_text(a[1], {})
             return x.get("name")
         if k == "lit":
             return repr(x.get("v")) if x.get("t") in ("str", "char") else str(x.get("v"))
+        if k == "mcall" and x.get("m") in ("concat", "join"):
+            rv_ = x.get("recv")
+            while isinstance(rv_, dict) and rv_.get("k") == "ref":
+                rv_ = rv_["e"]
+            sep = lit_val(peel(x["args"][0])) if (x.get("m") == "join" and x.get("args")) else ""
+            if isinstance(rv_, dict) and rv_.get("k") == "array" and isinstance(sep, str):
+                parts = []
+                for i_, e_ in enumerate(rv_.get("es") or []):
+                    if i_ and sep:
+                        parts.append(("lit", sep))
+                    lv_ = lit_val(peel(e_))
+                    parts.append(("lit", lv_) if isinstance(lv_, str) else ("val", self.value_text(e_, env)))
+                return cat_text(parts)
         if k == "mcall":
             args = ",".join(self.value_text(a, env) for a in x.get("args") or [] if not (isinstance(a, dict) and a.get("k") == "closure"))
             cl = [a for a in x.get("args") or [] if isinstance(a, dict) and a.get("k") == "closure"]
             if cl:
-                args = (args + "," if args else "") + "|%s|" % guards.canon(self.closure_formula(cl[0], env))
+                cf = self.closure_formula(cl[0], env)
+                if cf[0] == "atom" and cf[1].startswith("OPQ("):
+                    # not a predicate: a projection / computation; render it as the value it yields
+                    e3 = dict(env)
+                    for i_, p_ in enumerate(cl[0].get("params") or []):
+                        q_ = p_
+                        while isinstance(q_, dict) and q_.get("k") == "pref":
+                            q_ = q_["pat"]
+                        if isinstance(q_, dict) and q_.get("k") == "bind":
+                            e3[q_["id"]] = ("text", "$%d" % i_)
+                        elif isinstance(q_, dict) and q_.get("k") == "ptup":
+                            for j_, qq_ in enumerate(q_.get("pats") or []):
+                                if qq_.get("k") == "bind":
+                                    e3[qq_["id"]] = ("text", "$%d.%d" % (i_, j_))
+                    args = (args + "," if args else "") + "|%s|" % self.value_text(cl[0].get("body"), e3)
+                else:
+                    args = (args + "," if args else "") + "|%s|" % guards.canon(cf)
             ga = x.get("ga") or []
             gtxt = "::<%s>" % ",".join(g.rsplit("::", 1)[-1] for g in ga) if ga and x["m"] in ("downcast_ref", "parse", "collect", "downcast") else ""
             return "%s.%s%s(%s)" % (self.value_text(x["recv"], env), x["m"], gtxt, args)
@@ -316,10 +437,23 @@ class AcceptExtract(guards.Extract):
             for s in x.get("stmts") or []:
                 if s.get("k") == "let":
                     self.do_let(s, e2)
+                elif s.get("k") == "assign":
+                    l_ = peel(s.get("l"))
+                    if isinstance(l_, dict) and l_.get("k") == "local":
+                        e2[l_["id"]] = ("text", self.value_text(s["r"], e2))
             return self.value_text(x.get("expr"), e2) if x.get("expr") is not None else "()"
         if k == "match":
             return "match(%s)" % self.value_text(x["e"], env)
+        if k == "array":
+            return "[%s]" % ",".join(self.value_text(e_, env) for e_ in x.get("es") or [])
         if k == "def":
+            if x.get("dk") in ("const", "assoc_const", "static"):
+                cb = self.F.body_by_path.get(x.get("def"))
+                y = cb.get("body") if cb else None
+                while isinstance(y, dict) and (y.get("k") == "ref" or (y.get("k") == "block" and not y.get("stmts"))):
+                    y = y.get("e") if y.get("k") == "ref" else y.get("expr")
+                if isinstance(y, dict) and y.get("k") in ("array", "lit"):
+                    return self.value_text(y, {})
             return (x.get("def") or "?").rsplit("::", 1)[-1]
         if k == "fmt":
             pcs = x.get("pieces") or []
@@ -347,17 +481,23 @@ class AcceptExtract(guards.Extract):
 
     def closure_formula(self, cl, env):
         e2 = dict(env)
+        d_ = getattr(self, "_cdepth", 0)
+        tick = "'" * d_
         for i, p in enumerate(cl.get("params") or []):
             q = p
             while isinstance(q, dict) and q.get("k") == "pref":
                 q = q["pat"]
             if isinstance(q, dict) and q.get("k") == "bind":
-                e2[q["id"]] = ("text", "$%d" % i)
+                e2[q["id"]] = ("text", "$%d%s" % (i, tick))
             elif isinstance(q, dict) and q.get("k") == "ptup":
                 for j, qq in enumerate(q.get("pats") or []):
                     if qq.get("k") == "bind":
-                        e2[qq["id"]] = ("text", "$%d.%d" % (i, j))
-        return self.cond(cl["body"], e2)
+                        e2[qq["id"]] = ("text", "$%d%s.%d" % (i, tick, j))
+        self._cdepth = d_ + 1
+        try:
+            return self.cond(cl["body"], e2)
+        finally:
+            self._cdepth = d_
 
     def opq(self, n):
         return self.atom("OPQ(%s)" % self.value_text(n, getattr(self, "_cur_env", {})))
@@ -367,6 +507,30 @@ class AcceptExtract(guards.Extract):
         if isinstance(c, dict) and c.get("k") == "mcall":
             m = c.get("m")
             if m in ("any", "all") and c.get("args") and c["args"][0].get("k") == "closure":
+                base_ = c["recv"]
+                while isinstance(base_, dict) and base_.get("k") == "mcall" and base_.get("m") in ("iter", "into_iter", "copied", "cloned"):
+                    base_ = base_["recv"]
+                b0 = peel(base_)
+                if isinstance(b0, dict) and b0.get("k") == "local" and env.get(b0["id"], ("",))[0] == "value":
+                    b0 = peel(env[b0["id"]][1])
+                strs = self.const_strs(b0) if isinstance(b0, dict) else None
+                cl_ = c["args"][0]
+                ps_ = cl_.get("params") or []
+                q_ = ps_[0] if ps_ else None
+                while isinstance(q_, dict) and q_.get("k") == "pref":
+                    q_ = q_["pat"]
+                if strs is not None and isinstance(q_, dict) and q_.get("k") == "bind" and len(strs) <= 12:
+                    # a constant table: the closure once per member
+                    out_ = FALSE if m == "any" else TRUE
+                    for sv in sorted(set(strs)):
+                        e3 = dict(env)
+                        e3[q_["id"]] = ("value", {"k": "lit", "t": "str", "v": sv})
+                        f_ = self.cond(cl_["body"], e3)
+                        out_ = f_or(out_, f_) if m == "any" else f_and(out_, f_)
+                    return out_
+                inner = self.closure_formula(c["args"][0], env)
+                return self.atom("%s[%s](%s)" % (m.upper(), self.value_text(c["recv"], env), guards.canon(inner)))
+            if m in ("starts_with", "ends_with") and c.get("args") and c["args"][0].get("k") == "closure":
                 inner = self.closure_formula(c["args"][0], env)
                 return self.atom("%s[%s](%s)" % (m.upper(), self.value_text(c["recv"], env), guards.canon(inner)))
             if m in ("is_ok", "is_err"):
@@ -416,6 +580,59 @@ class AcceptExtract(guards.Extract):
                     return "STARTS_WITH(%s,'%s')" % (base, v), "%s[%d..]" % (base, n)
                 return "ENDS_WITH(%s,'%s')" % (base, v), "%s[..(%s.len()-%d)]" % (base, base, n)
         return None
+
+    def rf_for_loop(self, s, cur, env, acc):
+        """a `for` inside a predicate: `if c(x) { return true }` is any(c); `if c(x) { return false }` lets the
+        rest run only when all(!c). Returns the condition after the loop, or None when the loop is not of that form."""
+        binds = list(guards_walk_binds(s["pat"]))
+        if len(binds) != 1:
+            return None
+        if any(x.get("k") in ("assign", "assignop") for x in walk(s["body"])):
+            return None
+        it_text = self.value_text(s["iter"], env)
+        e2 = dict(env)
+        e2[binds[0]["id"]] = ("text", "$0")
+        t_acc, f_acc = [], []
+        self._rf(s["body"], TRUE, dict(e2), t_acc)
+        self._flip = True
+        try:
+            self._rf(s["body"], TRUE, dict(e2), f_acc)
+        finally:
+            self._flip = False
+        t = FALSE
+        for x in t_acc:
+            t = f_or(t, x)
+        f_ = FALSE
+        for x in f_acc:
+            f_ = f_or(f_, x)
+        if len(atoms_of(t) | atoms_of(f_)) > 10:
+            return None
+        if t != FALSE and f_ == FALSE:
+            a = self.atom("ANY[%s](%s)" % (it_text, guards.canon(t)))
+            acc.append(f_and(cur, a))
+            return f_and(cur, f_not(a))
+        if f_ != FALSE and t == FALSE:
+            return f_and(cur, self.atom("ALL[%s](%s)" % (it_text, guards.canon(f_not(f_)))))
+        if t == FALSE and f_ == FALSE:
+            return cur
+        return None
+
+    def cond_tries(self, c, env):
+        """every `?` evaluated inside a condition must succeed for either branch to be reached; operands behind a
+        short circuit are evaluated only when the left operand lets them"""
+        if not isinstance(c, dict) or not any(t.get("k") == "try" for t in walk(c)):
+            return TRUE
+        if c.get("k") == "bin" and c.get("op") in ("&&", "||"):
+            lt = self.cond_tries(c["l"], env)
+            rt = self.cond_tries(c["r"], env)
+            if rt == TRUE:
+                return lt
+            lc = self.cond(c["l"], dict(env))
+            gate = f_or(f_not(lc), rt) if c["op"] == "&&" else f_or(lc, rt)
+            return f_and(lt, gate)
+        if c.get("k") == "letx":
+            return self.try_atoms(c.get("init"), env)
+        return self.try_atoms(c, env)
 
     def do_let(self, s, env):
         pat = s["pat"]
@@ -538,6 +755,7 @@ class AcceptExtract(guards.Extract):
         k = x.get("k")
         if k == "if":
             cc = self.cond(x["cond"], env)
+            pc = f_and(pc, self.cond_tries(x["cond"], env))
             saved = self.ctx
             self.ctx = f_and(saved, pc)
             self.tail(x["then"], cc, dict(env))
@@ -629,6 +847,7 @@ class AcceptExtract(guards.Extract):
             return None
         if k == "if":
             cc = self.cond(s["cond"], env)
+            pc = f_and(pc, self.cond_tries(s["cond"], env))
             et, ee = dict(env), dict(env)
             saved = self.ctx
             self.ctx = f_and(saved, pc)
@@ -785,6 +1004,19 @@ class AcceptExtract(guards.Extract):
         if body_f == TRUE and early == FALSE:
             # nothing in the body can fail or leave: the loop says nothing about acceptance
             return pc
+        nb = len(list(guards_walk_binds(s["pat"]))) if s.get("k") == "for" else 0
+        stateful = any("~" in a for a in atoms_of(body_f) | atoms_of(early))
+        if s.get("k") == "for" and nb == 1 and not stateful and len(atoms_of(body_f) | atoms_of(early)) <= 10:
+            it2 = it_text
+            # `for x in v { if !c(x) { leave } }` is v.iter().all(c); `for x in v { if c(x) { return true } }` is any(c)
+            def as_closure(f_):
+                return guards.canon(f_).replace("@0", "$0")
+            if early == FALSE:
+                return f_and(pc, self.atom("ALL[%s](%s)" % (it2, as_closure(body_f))))
+            if self.mode == "bool" and (body_f == TRUE or equivalent(f_or(early, body_f), TRUE)[0] is True):
+                a_ = self.atom("ANY[%s](%s)" % (it2, as_closure(early)))
+                self.accept.append(f_and(f_and(self.ctx, pc), a_))
+                return f_and(pc, f_not(a_))
         atom = self.atom("LOOPOK[%s %s](%s)" % (s.get("k"), it_text, guards.canon(body_f) if len(atoms_of(body_f)) <= 10 else show(body_f)))
         if early != FALSE:
             self.accept.append(f_and(f_and(self.ctx, pc), self.atom("LOOPEXIT[%s](%s)" % (it_text, guards.canon(early) if len(atoms_of(early)) <= 10 else show(early)))))
@@ -1162,6 +1394,19 @@ def u7(rep, F, flt=None):
                 # pruned: elements the reference delivers can now be missing
                 rep.add(Finding("U7", path, "store-changed",
                                 "%s additionally prunes what it delivers: `%s`" % (path, pruning[0].partition(" => ")[2][:200]),
+                                b["file"], b["line"]))
+                continue
+            # one value piece on each side: compare them token-wise; what they share may contain unresolved
+            # names, what distinguishes them must not
+            va_ = [x for x in (pa - po) if x.startswith("V:")]
+            vo_ = [x for x in (po - pa) if x.startswith("V:")]
+            rest = {x for x in (pa ^ po) if not x.startswith("V:")}
+            if len(va_) == 1 and len(vo_) == 1 and not any(decide.opaque(x, vocab) for x in rest) and \
+                    decide.texts_definitely_differ(va_[0], vo_[0], vocab):
+                da_, db_ = decide.differing_tokens(va_[0], vo_[0])
+                rep.add(Finding("U7", path, "store-changed",
+                                "%s now delivers a different value than the reference: the current value has `%s` "
+                                "where the reference has `%s`" % (path, " ".join(da_)[:200], " ".join(db_)[:200]),
                                 b["file"], b["line"]))
                 continue
             if any(decide.opaque(x, vocab) for x in (pa ^ po)):
